@@ -51,6 +51,23 @@ theorem history_pure (compute : D → K → V) : ∀ (ks : List K) (s : Memo D K
     rw [i3, h3, h1]
     rfl
 
+/-- no answer depends on what was asked before it, on how often, or in which order: the same key asked
+    at any position of any two histories (from any two consistent cache states over the same data)
+    gets the same answer -/
+theorem answers_history_independent (compute : D → K → V) (ks ks' : List K) (s s' : Memo D K V)
+    (h : Consistent compute s) (h' : Consistent compute s') (hd : s.data = s'.data) (i j : Nat) (k : K)
+    (hi : ks[i]? = some k) (hj : ks'[j]? = some k) :
+    (run compute s ks).2[i]? = (run compute s' ks').2[j]? := by
+  rw [(history_pure compute ks s h).2.2, (history_pure compute ks' s' h').2.2, hd]
+  simp [List.getElem?_map, hi, hj]
+
+/-- and a permuted history gets the permuted answers -/
+theorem answers_perm (compute : D → K → V) (ks ks' : List K) (s : Memo D K V)
+    (h : Consistent compute s) (hp : ks.Perm ks') :
+    ((run compute s ks).2).Perm (run compute s ks').2 := by
+  rw [(history_pure compute ks s h).2.2, (history_pure compute ks' s h).2.2]
+  exact hp.map _
+
 /-- interleaving with saves: a save is a function of the data only (C02/C03), so after any history of
     queries it writes what it would have written before -/
 theorem save_after_queries {X : Type} (save : D → X) (compute : D → K → V) (ks : List K) (s : Memo D K V)
